@@ -171,6 +171,24 @@ async fn scenario(ctx: &Ctx, out: &mut Outcome, rng: &mut Rng, idx: u64) {
             );
         }
     }
+    // ---- a back-filled copy (what ShardSplitter::run_backfill produces: an old-shard chunk re-written under
+    //      "<new shard>/backfill_<hex>_<idx>_<a|b>.parquet"), present while the phase is Backfill
+    if matches!(phase, SplitPhase::Backfill) {
+        use object_store::ObjectStore;
+        if let Some(c) = local.list_chunks().await.unwrap_or_default().into_iter().find(|c| !c.chunk_path.contains("shard=")) {
+            if let Ok(g) = store.get(&object_store::path::Path::from(c.chunk_path.as_str())).await {
+                if let Ok(bytes) = g.bytes().await {
+                    let p = format!("{}/backfill_{}_0_b.parquet", b, "6f6c64");
+                    let n = bytes.len() as u64;
+                    let _ = store.put(&object_store::path::Path::from(p.as_str()), bytes.into()).await;
+                    let _ = local
+                        .register_chunk(&p, &cardinalsin::ingester::ChunkMetadata { path: p.clone(), min_timestamp: c.min_timestamp, max_timestamp: c.max_timestamp, row_count: c.row_count, size_bytes: n })
+                        .await;
+                    out.count("reads.scenarios_with_backfilled_copy", 1);
+                }
+            }
+        }
+    }
     // ---- reads during the split
     let node = match QueryNode::new(crate::checks::c09::query_config(), store.clone(), local.clone(), storage_config()).await {
         Ok(n) => n,
@@ -268,11 +286,13 @@ fn dedup_case(ctx: &Ctx, out: &mut Outcome, rng: &mut Rng, idx: u64) {
     }
     if got != want {
         let lost = want.iter().filter(|r| !got.contains(r)).count();
-        let sig = if lost > 0 { "C15/dedup/distinct-series-collapsed" } else { "C15/dedup/copies-not-suppressed" };
-        out.violation(
-            sig,
-            &format!("de-duplication of {} rows + {} copies returned {} rows ({} distinct rows lost)", rows_.len(), copies.len(), got.len(), lost),
-            json!({"case": idx, "seed": ctx.seed, "rows": rows_.iter().map(|r| format!("{:?}", r)).collect::<Vec<_>>(), "copies": copies.len()}),
-        );
+        // The routine is no longer on the query path (copies are excluded when chunks are selected, see the
+        // reads lane), so what it does to its input is an observation, not a verdict on the property.
+        if lost > 0 {
+            out.count("dedup.routine_collapsed_distinct_series(observation only)", 1);
+        } else {
+            out.count("dedup.routine_kept_copies(observation only)", 1);
+        }
+        out.note("the private de-duplication routine (unused by the query path since 93de9a8) keys on (timestamp, metric name) and collapses distinct series; observed at input level, not judged");
     }
 }
